@@ -481,6 +481,8 @@ struct LedgerEv {
     state: LState,
     /// carried by a response since the last reset (library state `Written`)
     carried: bool,
+    /// the event variation configured for the point when the event was recorded
+    evar: u8,
 }
 
 #[derive(Clone, Debug)]
@@ -491,6 +493,7 @@ struct RefPoint {
     last_reported: Val,
     deadband: u64,
     svar: u8,
+    evar: u8,
     /// op number at which the point was added
     #[allow(dead_code)]
     added_at: usize,
@@ -517,6 +520,9 @@ struct Reference {
     /// a point was added inside a selected range while the series was open (cause predicate of D12)
     d12_points: Vec<(Ty, u16)>,
     selected_ranges: Vec<(Ty, u16, u16)>,
+    /// a header of an event group (READ by type, any variation) was selected since the last reset: the
+    /// variation in which an event is reported may then be the requested one
+    typed_event_select: bool,
 }
 
 impl Reference {
@@ -539,6 +545,7 @@ impl Reference {
         for e in self.ledger.iter_mut() {
             e.carried = false;
         }
+        self.typed_event_select = false;
         self.end_series();
     }
 }
@@ -727,7 +734,7 @@ pub fn run(ops: &str, out: &mut dyn Write, mon_w: &mut dyn Write) {
                             if fresh {
                                 rf.series_dirty = true;
                                 let class = if (1..=3).contains(&cls) { cls } else { 0 };
-                                map.insert(idx, RefPoint { class, val: Val::default_of(ty), last_reported: Val::default_of(ty), deadband: if has_deadband(ty) { deadband as u64 } else { 0 }, svar: sv, added_at: opn });
+                                map.insert(idx, RefPoint { class, val: Val::default_of(ty), last_reported: Val::default_of(ty), deadband: if has_deadband(ty) { deadband as u64 } else { 0 }, svar: sv, evar: ev, added_at: opn });
                                 if rf.series_open && rf.selected_ranges.iter().any(|(a, lo, hi)| *a == ty && *lo <= idx && idx <= *hi) {
                                     rf.d12_points.push((ty, idx));
                                 }
@@ -842,7 +849,7 @@ pub fn run(ops: &str, out: &mut dyn Write, mon_w: &mut dyn Write) {
                             } else if live >= evmax {
                                 m.fail("type_capacity_respected", None, &format!("op {opn}: created with {live} live events of type {}, evmax {evmax}", ty.code()));
                             }
-                            rf.ledger.push(LedgerEv { id, ty, index: idx, val, class: pt.class, state: LState::Live, carried: false });
+                            rf.ledger.push(LedgerEv { id, ty, index: idx, val, class: pt.class, state: LState::Live, carried: false, evar: pt.evar });
                         }
                     }
                     writeln!(out, "ok").unwrap();
@@ -871,6 +878,9 @@ pub fn run(ops: &str, out: &mut dyn Write, mon_w: &mut dyn Write) {
                                 rf.series_unreliable = true; // selection queue overflow: not everything was selected
                             }
                             for (g, v, q, a, b) in static_headers(&bytes) {
+                                if Ty::from_event_group(g).is_some() {
+                                    rf.typed_event_select = true;
+                                }
                                 m.stats.hit(&format!("hdr_g{g}_q{q:02x}"));
                                 rf.expect_header(g, v, q, a, b);
                             }
@@ -930,6 +940,17 @@ pub fn run(ops: &str, out: &mut dyn Write, mon_w: &mut dyn Write) {
                                 }
                                 match found {
                                     Some(k) => {
+                                        // reported by class (class poll, unsolicited) and by nothing else since the last
+                                        // reset: in the event variation configured for its point, i.e. with everything
+                                        // that variation carries of what was recorded — not in whatever a READ of an
+                                        // earlier, abandoned series had asked for (S73)
+                                        if !rf.typed_event_select && eo.g != 111 {
+                                            if eo.v != rf.ledger[k].evar {
+                                                m.fail("class_report_in_configured_variation", None, &format!("op {opn}: event {} ({} {}) reported by class as g{}v{}, its point is configured for g{}v{}", rf.ledger[k].id, rf.ledger[k].ty.code(), eo.idx, eo.g, eo.v, eo.g, rf.ledger[k].evar));
+                                            } else {
+                                                m.stats.hit("class_report_variation_checked");
+                                            }
+                                        }
                                         rf.ledger[k].carried = true;
                                         pos = k + 1;
                                         matched += 1;
